@@ -174,6 +174,11 @@ class _:
                 for init in ("random", "nvecs", "given"):
                     for ranks in ([min(2, d) for d in shp], [d for d in shp], 1):
                         yield dict(alg="tucker_als", shape=list(shp), order=list(order), init=init, ranks=ranks, seed=rng.randrange(10**6), exact=bool(rng.randrange(2)))
+        # single-precision data (the decomposition itself must be carried out in double precision): tolerances at the
+        # scale of the small spectral components
+        for seq in (True, False):
+            for tol in (1e-4, 2e-4):
+                yield dict(alg="hosvd", shape=[6, 5, 4], order=[0, 1, 2], seq=seq, tol=tol, ranks=None, seed=rng.randrange(10**6), scale=1.0, f32=True)
         # data with mirror structure: a size-2 mode holding two identical slices / a slice and its negative, so that leading
         # mode vectors are (1, 1)/sqrt 2 and (1, -1)/sqrt 2 (largest and most negative entries of equal size)
         for mirror in ("same", "negated"):
@@ -187,7 +192,12 @@ class _:
         shp, N = tuple(case["shape"]), len(case["shape"])
         if case["alg"] == "hosvd":
             X = (_lowrank(rs, shp, 2, noise=0.05)) * case["scale"]
+            if case.get("f32"):
+                comps = [np.multiply.outer(np.multiply.outer(*[np.linalg.qr(rs.randn(d, 4))[0][:, j] for d in shp[:2]]), np.linalg.qr(rs.randn(shp[2], 4))[0][:, j]) for j in range(4)]
+                X = (comps[0] + 3e-4 * (comps[1] + comps[2] + comps[3])).astype(np.float32)
+                X = np.asarray(X)
             T = ttb.tensor(X.copy())
+            X = np.asarray(X, dtype=float)
             normX = np.linalg.norm(X)
             ranks = None if case["ranks"] is None else np.array(case["ranks"])
             R = ttb.hosvd(T, case["tol"], verbosity=0, dimorder=list(case["order"]), sequential=case["seq"], ranks=ranks)
